@@ -7,8 +7,8 @@
   (object.py:821-835) and `callable_eq` (typing/inspect.py:198-232) on the value domain below,
   *as they are in the tree with fixes/C06-*.patch applied* (F14: `lt` of two `None` / two missing
   markers is `False`; F15b: dict keys are ordered by `lt`, not by native `<`; F15a: `Dict.sym_hash`
-  combines the items with a `frozenset`). Defects that are kept (known findings) are mirrored:
-  `lt` walks dict keys *by position* (F15), `pg.hash` of a plain `list`/`dict` raises (F16),
+  combines the items with a `frozenset`; F15: `lt` walks dict keys in sorted order, object fields in
+  declaration order). Defects that are kept (known findings) are mirrored: `pg.hash` of a plain `list`/`dict` raises (F16),
   `lt` between instances of two distinct classes with one `__qualname__` never terminates (F39).
 
   Numbers are exact dyadic rationals `m / 2^e` carrying their Python type as a tag (bool / int /
@@ -169,7 +169,7 @@ mutual
 end
 
 mutual
-  /-- `pg.lt`. -/
+  /-- the core of `pg.lt`: on values whose dict keys are sorted (see `symLt` below). -/
   def lt (env : Env) : Val → Val → Except Err Bool
     | .atom a, y =>
         match rankCmp env (.atom a) y with
@@ -219,8 +219,51 @@ mutual
         else atomLt env k k'
 end
 
-/-- `pg.gt`. -/
+/-- `lt` with swapped arguments (on key-sorted values). -/
 def gt (env : Env) (x y : Val) : Except Err Bool := lt env y x
+
+/-! ### Key order of dicts (fix F15): `lt` walks the keys of a dict in *sorted* order
+
+`base.lt` sorts the keys of both dicts by `lt` before walking them (`_sorted_keys`), while
+`Object.sym_lt` compares the fields of two objects of one class in declaration order. Sorting the
+keys at every level during the comparison is the same as sorting all dicts first (`canon`) and then
+comparing by position (`lt` above, whose sub-value tests `eq` do not depend on key order). -/
+
+def okTrue : Except Err Bool → Bool
+  | .ok true => true
+  | _ => false
+
+/-- insertion into a key-sorted association list (`sorted(d.keys(), key=cmp_to_key(lt))`). -/
+def insertItem (env : Env) (k : Atom) (v : Val) : List (Atom × Val) → List (Atom × Val)
+  | [] => [(k, v)]
+  | (k', w) :: rest =>
+    if okTrue (atomLt env k k') then (k, v) :: (k', w) :: rest else (k', w) :: insertItem env k v rest
+
+def sortItems (env : Env) : List (Atom × Val) → List (Atom × Val)
+  | [] => []
+  | (k, v) :: rest => insertItem env k v (sortItems env rest)
+
+mutual
+  /-- every dict with its keys sorted (object attributes keep their declaration order). -/
+  def canon (env : Env) : Val → Val
+    | .atom a => .atom a
+    | .list s xs => .list s (canonList env xs)
+    | .tuple xs => .tuple (canonList env xs)
+    | .dict s kvs => .dict s (sortItems env (canonItems env kvs))
+    | .obj c kvs => .obj c (canonItems env kvs)
+  def canonList (env : Env) : List Val → List Val
+    | [] => []
+    | x :: xs => canon env x :: canonList env xs
+  def canonItems (env : Env) : List (Atom × Val) → List (Atom × Val)
+    | [] => []
+    | (k, v) :: rest => (k, canon env v) :: canonItems env rest
+end
+
+/-- `pg.lt`. -/
+def symLt (env : Env) (x y : Val) : Except Err Bool := lt env (canon env x) (canon env y)
+
+/-- `pg.gt`. -/
+def symGt (env : Env) (x y : Val) : Except Err Bool := symLt env y x
 
 /-! ### Hashing -/
 
